@@ -181,7 +181,7 @@ mutate(vh_rng *rg, struct rt_desc *d)
 {
     int nm = 1 + (int)vh_below(rg, 2);
     for (int m = 0; m < nm; m++) {
-        unsigned k = (unsigned)vh_below(rg, 14);
+        unsigned k = (unsigned)vh_below(rg, 15);
         int ai = d->nareas > 1 ? 1 + (int)vh_below(rg, (uint64_t)d->nareas - 1) : 0;
         int ri = d->nregs > 1 ? 1 + (int)vh_below(rg, (uint64_t)d->nregs - 1) : 0;
         switch (k) {
@@ -242,6 +242,19 @@ mutate(vh_rng *rg, struct rt_desc *d)
             }
             break;
         case 12: d->nregs = 0; break;
+        case 13: { /* a range whose limits are exchanged: nothing satisfies it, not even its default */
+            int tries = d->nregs;
+            while (tries-- > 0) {
+                struct rt_reg *r = &d->reg[vh_below(rg, (uint64_t)d->nregs)];
+                if (r->ck == REGV_TYPE_RANGE && rt_cmp(r->type, r->lo, r->hi) < 0) {
+                    RegisterValueU t = r->lo;
+                    r->lo = r->hi;
+                    r->hi = t;
+                    break;
+                }
+            }
+            break;
+        }
         default:
             if (d->nareas > 0) { /* toggle default loading of an area */
                 struct rt_area *a = &d->area[vh_below(rg, (uint64_t)d->nareas)];
